@@ -241,4 +241,14 @@ PROPS = {
                "The in-process build checks only the behavioural half (no files or descriptors exist there).",
                "cases = (per server: client kind, message script with attachments, event order, dropped unused, connects); non-trivial = >=2 messages queued before accept, or the client exited before accept, or >=2 servers alive; distinct = distinct (build, params, canonical JSON)"),
     ),
+    "C10": dict(
+        jobs=lambda tier: [dict(build="os", params={"sndbuf": "4096", "cases": "2400" if tier == "quick" else "40000"}, shards=16),
+                           dict(build="os", params={"cases": "300" if tier == "quick" else "4000"}, shards=4),
+                           dict(build="inproc", params={"sndbuf": "4096", "cases": "800" if tier == "quick" else "12000"}, shards=8)],
+        meta=M("exploration",
+               "generated scripts of recv / try_recv / try_recv_timeout(d) against a commanded sender thread (send or drop before / during / after each call), judged causally from logical-clock stamps plus the monotonic clock in the two sound directions",
+               "Scripts of up to 30 steps mix the three receive variants with d in {0, 1 ns, 999 us, 1 ms, 1.5 ms, 5-50 ms, 100-300 ms, 1-2 s (thorough)} while a sender thread sends small or multi-packet messages or drops its handle before the call, a generated delay after the call started, or not at all. try_recv must return the next message if its send had returned before the call, Empty if nothing was sent and a sender lives, Disconnected if the drop had returned and nothing is queued (racing cases accept any answer consistent with some instant of the call). try_recv_timeout reporting Empty must have lasted at least floor(d) ms and nothing may have completed before start + floor(d) ms; a blocking recv issued after any Empty must block and return its message. Everything outstanding is delivered in order at the end, then Disconnected.",
+               "No check asserts that anything is fast; the clock is only used for 'lasted at least' and 'completed before the deadline'. A blocking recv is issued only when the script guarantees a message or a drop.",
+               "cases = (steps of (operation, sender action), typed or bytes channel); non-trivial = a blocking recv after an Empty, or a send/drop during a timed wait of >=5 ms, or a sub-millisecond timeout; distinct = distinct (build, params, canonical JSON)"),
+    ),
 }
